@@ -68,6 +68,26 @@ Proof. exact gen_pool_Put_is_model. Qed.
 Theorem C10_source_pool_locked : gen_pool_Get_locked = true /\ gen_pool_Put_locked = true.
 Proof. exact gen_pool_locked. Qed.
 
+(** ... and over SEQUENCES: driving the translated Get / Put through any operation sequence (Client/PoolTie.gen_run:
+    the same discipline as [pool_run]) is [pool_run] on the model; so the allocator theorem holds of the
+    translated code itself: for every disciplined Get/Put sequence run on what p9/pool.go says, no step panics
+    and the outstanding values are pairwise distinct and lie in [start0, limit) *)
+Theorem C10_source_pool_run_is_model : forall ops p out,
+  gen_run (rev (p_cache p)) (Z.of_N (p_start p)) (Z.of_N (p_limit p)) out ops = enc_run (pool_run p out ops).
+Proof. exact gen_run_is_model. Qed.
+Print Assumptions C10_source_pool_run_is_model.
+Theorem C10_source_pool : forall start0 limit ops c s out res,
+  (start0 <= limit < two64)%N ->
+  gen_run [] (Z.of_N start0) (Z.of_N limit) [] ops = Some (c, s, out, res) ->
+  NoDup out /\ Forall (fun v => start0 <= v < limit)%N out.
+Proof.
+  intros start0 limit ops c s out res Hr H.
+  pose proof (gen_run_is_model ops (mkpool [] start0 limit) []) as T. cbn [p_cache p_start p_limit rev] in T.
+  rewrite T in H. destruct (pool_run (mkpool [] start0 limit) [] ops) as [[[pf o] rs]|] eqn:E; [|discriminate].
+  cbn in H. inversion H; subst. exact (C10_pool start0 limit ops pf out res Hr E).
+Qed.
+Print Assumptions C10_source_pool.
+
 (** Get fails only when every value of the range is outstanding *)
 Theorem C10_pool_exhausted : forall start0 limit ops pf out res,
   (start0 <= limit < two64)%N ->
